@@ -403,16 +403,22 @@ theorem evStep1_obs {k : Nat} {c : Hp.St} {cuts : Cuts} {e : Ev} {pc : Pc} {c' :
     obtain ⟨⟨_, h⟩, _⟩ := h; cases h
     exact ⟨fun o ho => ho, .inl rfl⟩
   · next o ht =>
-    rw [plainR_ok, guard_ok] at h
-    obtain ⟨⟨_, h⟩, _⟩ := h; cases h
-    exact ⟨fun o' ho => by simpa [obsOfPc, ht, obsOfTask] using ho,
-      .inr ⟨o, by simp [obsOfPc, ht, obsOfTask], rfl⟩⟩
+    rw [plainR_ok] at h
+    obtain ⟨h, _⟩ := h
+    rcases fetchAdd_cases h with ⟨⟨ic, f, hr⟩, hfl, hfk⟩ | ⟨hr, hfok, hfl, hfo, hfr, hfk⟩
+    · cases hr; exact ⟨fun o ho => ho, .inl rfl⟩
+    · cases hr
+      exact ⟨fun o' ho => by simpa [obsOfPc, ht, obsOfTask, faDone] using ho,
+        .inr ⟨o, by simp [obsOfPc, ht, obsOfTask], rfl⟩⟩
   · next o b p l ht =>
     simp only [obsEntry] at h
     split at h
-    · rw [plainR_ok, guard_ok] at h
-      obtain ⟨⟨_, h⟩, _⟩ := h; cases h
-      exact ⟨fun o' ho => by simpa [obsOfPc, ht, obsOfTask] using ho, .inl rfl⟩
+    · rw [plainR_ok] at h
+      obtain ⟨h, _⟩ := h
+      rcases fetchAdd_cases h with ⟨⟨ic, f, hr⟩, hfl, hfk⟩ | ⟨hr, hfok, hfl, hfo, hfr, hfk⟩
+      · cases hr; exact ⟨fun o ho => ho, .inl rfl⟩
+      · cases hr
+        exact ⟨fun o' ho => by simpa [obsOfPc, ht, obsOfTask, faDone] using ho, .inl rfl⟩
     · rw [plainR_ok] at h
       obtain ⟨h, _⟩ := h
       rcases casLoop_c0 h with ⟨_, h2, h3⟩ | h1
@@ -421,9 +427,12 @@ theorem evStep1_obs {k : Nat} {c : Hp.St} {cuts : Cuts} {e : Ev} {pc : Pc} {c' :
       · cases h1
         exact ⟨fun o' ho => by simpa [obsOfPc, ht, obsOfTask] using ho, .inl rfl⟩
   · next o b ht =>
-    rw [plainR_ok, guard_ok] at h
-    obtain ⟨⟨_, h⟩, _⟩ := h; cases h
-    exact ⟨fun o' ho => by simp [obsOfPc] at ho, .inl rfl⟩
+    rw [plainR_ok] at h
+    obtain ⟨h, _⟩ := h
+    rcases fetchAdd_cases h with ⟨⟨ic, f, hr⟩, hfl, hfk⟩ | ⟨hr, hfok, hfl, hfo, hfr, hfk⟩
+    · cases hr; exact ⟨fun o ho => ho, .inl rfl⟩
+    · cases hr
+      exact ⟨fun o' ho => by simp [obsOfPc] at ho, .inl rfl⟩
   · next ht =>
     rw [plainR_ok, guard_ok] at h
     obtain ⟨⟨_, h⟩, _⟩ := h; cases h
@@ -441,9 +450,12 @@ theorem evStep1_obs {k : Nat} {c : Hp.St} {cuts : Cuts} {e : Ev} {pc : Pc} {c' :
         · rw [plainR_ok, guard_ok] at h
           obtain ⟨⟨_, h⟩, _⟩ := h; cases h
           exact ⟨fun o' ho => by simp [obsOfPc] at ho, .inl rfl⟩
-    · rw [plainR_ok, guard_ok] at h
-      obtain ⟨⟨_, h⟩, _⟩ := h; cases h
-      exact ⟨fun o' ho => by simp [obsOfPc, obsOfTask] at ho, .inl rfl⟩
+    · rw [plainR_ok] at h
+      obtain ⟨h, _⟩ := h
+      rcases fetchAdd_cases h with ⟨⟨ic, f, hr⟩, hfl, hfk⟩ | ⟨hr, hfok, hfl, hfo, hfr, hfk⟩
+      · cases hr; exact ⟨fun o ho => ho, .inl rfl⟩
+      · cases hr
+        exact ⟨fun o' ho => by simp [obsOfPc, obsOfTask] at ho, .inl rfl⟩
   · next cold ov S ht =>
     rw [plainR_ok, guard_ok] at h
     obtain ⟨⟨_, h⟩, _⟩ := h
@@ -464,9 +476,12 @@ theorem evStep1_obs {k : Nat} {c : Hp.St} {cuts : Cuts} {e : Ev} {pc : Pc} {c' :
       exact ⟨fun o' ho => by simp [obsOfPc, obsOfTask] at ho, .inl rfl⟩
   · next cold ov cell todo taken S ht =>
     split at h
-    · rw [plainR_ok, guard_ok] at h
-      obtain ⟨⟨_, h⟩, _⟩ := h; cases h
-      exact ⟨fun o' ho => by simp [obsOfPc, obsOfTask] at ho, .inl rfl⟩
+    · rw [plainR_ok] at h
+      obtain ⟨h, _⟩ := h
+      rcases fetchAdd_cases h with ⟨⟨ic, f, hr⟩, hfl, hfk⟩ | ⟨hr, hfok, hfl, hfo, hfr, hfk⟩
+      · cases hr; exact ⟨fun o ho => ho, .inl rfl⟩
+      · cases hr
+        exact ⟨fun o' ho => by simp [obsOfPc, obsOfTask] at ho, .inl rfl⟩
     · rw [plainR_ok] at h
       obtain ⟨h, _⟩ := h
       rcases casLoop_c0 h with ⟨_, h2, h3⟩ | h1
@@ -475,9 +490,12 @@ theorem evStep1_obs {k : Nat} {c : Hp.St} {cuts : Cuts} {e : Ev} {pc : Pc} {c' :
       · cases h1
         exact ⟨fun o' ho => by simp [obsOfPc, obsOfTask] at ho, .inl rfl⟩
   · next cold ov todo taken S ht =>
-    rw [plainR_ok, guard_ok] at h
-    obtain ⟨⟨_, h⟩, _⟩ := h; cases h
-    exact ⟨fun o' ho => by simp [obsOfPc, obsOfTask] at ho, .inl rfl⟩
+    rw [plainR_ok] at h
+    obtain ⟨h, _⟩ := h
+    rcases fetchAdd_cases h with ⟨⟨ic, f, hr⟩, hfl, hfk⟩ | ⟨hr, hfok, hfl, hfo, hfr, hfk⟩
+    · cases hr; exact ⟨fun o ho => ho, .inl rfl⟩
+    · cases hr
+      exact ⟨fun o' ho => by simp [obsOfPc, obsOfTask] at ho, .inl rfl⟩
   · next cold ov todo taken S ht =>
     split at h
     · cases h
